@@ -206,97 +206,95 @@ Print Assumptions C01_connect_step.
 Print Assumptions C01_fresh_tracker_untouchable.
 
 (* ---------- non-vacuity: concrete histories (vm_compute) ---------- *)
-Module Examples.
-  Definition c0 := mk_config 10 1000 6.
-  Definition blocks0 : list (N * list N) := [(1006,[]);(1005,[]);(1004,[]);(1003,[]);(1002,[]);(1001,[])].
-  Definition dummy := mk_tower c0 [] 0 [] [] [] 0 (mk_txindex [] [] [] 0 0) (mk_txindex [] [] [] 0 0) 0 [] [] [].
-  Definition t0 := match init c0 200 blocks0 with Some t => t | None => dummy end.
-  Definition good := mk_blob 500 (Some 900) 100.        (* decrypts with dispute 500 to penalty 900 *)
-  Definition garbage := mk_blob 501 (Some 900) 100.     (* does not decrypt with dispute 500 *)
-  (* user 1 registers and hands over an appointment for locator 500 *)
-  Definition pre (b : blob) : list (op * script) := [(ORegister 1, []); (OAdd (Some 1) 500 b 20 77, [])].
-  Definition summary (t : tower) :=
-    (map app_uuid (db_apps t), map (fun k => (trk_uuid k, t_dispute k, t_penalty k)) (db_trks t),
-     map (fun e => (r_kind e, r_tx e)) (rpc_log t)).
-  Definition after (t : tower) (h : list (op * script)) := let '(t', outs) := run true t h in (last outs OBlockRes, summary t').
+Definition C01_ex_c0 := mk_config 10 1000 6.
+Definition C01_ex_blocks0 : list (N * list N) := [(1006,[]);(1005,[]);(1004,[]);(1003,[]);(1002,[]);(1001,[])].
+Definition C01_ex_dummy := mk_tower C01_ex_c0 [] 0 [] [] [] 0 (mk_txindex [] [] [] 0 0) (mk_txindex [] [] [] 0 0) 0 [] [] [].
+Definition C01_ex_t0 := match init C01_ex_c0 200 C01_ex_blocks0 with Some t => t | None => C01_ex_dummy end.
+Definition C01_ex_good := mk_blob 500 (Some 900) 100.        (* decrypts with dispute 500 to penalty 900 *)
+Definition C01_ex_garbage := mk_blob 501 (Some 900) 100.     (* does not decrypt with dispute 500 *)
+(* user 1 registers and hands over an appointment for locator 500 *)
+Definition C01_ex_pre (b : blob) : list (op * script) := [(ORegister 1, []); (OAdd (Some 1) 500 b 20 77, [])].
+Definition C01_ex_summary (t : tower) :=
+  (map app_uuid (db_apps t), map (fun k => (trk_uuid k, t_dispute k, t_penalty k)) (db_trks t),
+   map (fun e => (r_kind e, r_tx e)) (rpc_log t)).
+Definition C01_ex_after (t : tower) (h : list (op * script)) := let '(t', outs) := run true t h in (last outs OBlockRes, C01_ex_summary t').
 
-  (* the block with dispute 500 arrives, the node takes the penalty: tracker (500,1) -> (500, 900) *)
-  Example breach_answered :
-    after t0 (pre good ++ [(OConnect 2001 [500], [(900, (G_not_found, A_ok))])])
-    = (OBlockRes, ([(500, 1)], [((500, 1), 500, 900)], [(K_send, 900); (K_getraw, 900)])).
-  Proof. vm_compute. reflexivity. Qed.
-  Example breach_answered_reported :
-    fst (after t0 (pre good ++ [(OConnect 2001 [500], [(900, (G_not_found, A_ok))]); (OGet (Some 1) 500, [])]))
-    = OGetRes (GetTrk 500 900).
-  Proof. vm_compute. reflexivity. Qed.
+(* the block with dispute 500 arrives, the node takes the penalty: tracker (500,1) -> (500, 900) *)
+Example C01_ex_breach_answered :
+  C01_ex_after C01_ex_t0 (C01_ex_pre C01_ex_good ++ [(OConnect 2001 [500], [(900, (G_not_found, A_ok))])])
+  = (OBlockRes, ([(500, 1)], [((500, 1), 500, 900)], [(K_send, 900); (K_getraw, 900)])).
+Proof. vm_compute. reflexivity. Qed.
+Example C01_ex_breach_answered_reported :
+  fst (C01_ex_after C01_ex_t0 (C01_ex_pre C01_ex_good ++ [(OConnect 2001 [500], [(900, (G_not_found, A_ok))]); (OGet (Some 1) 500, [])]))
+  = OGetRes (GetTrk 500 900).
+Proof. vm_compute. reflexivity. Qed.
 
-  (* garbage blob: only that appointment is dropped, nothing is sent *)
-  Example breach_garbage :
-    after t0 (pre garbage ++ [(OConnect 2001 [500], [])]) = (OBlockRes, ([], [], [])).
-  Proof. vm_compute. reflexivity. Qed.
+(* C01_ex_garbage blob: only that appointment is dropped, nothing is sent *)
+Example C01_ex_breach_garbage :
+  C01_ex_after C01_ex_t0 (C01_ex_pre C01_ex_garbage ++ [(OConnect 2001 [500], [])]) = (OBlockRes, ([], [], [])).
+Proof. vm_compute. reflexivity. Qed.
 
-  (* the node rejects the penalty (-26): dropped *)
-  Example breach_rejected :
-    after t0 (pre good ++ [(OConnect 2001 [500], [(900, (G_not_found, A_code (-26)))])])
-    = (OBlockRes, ([], [], [(K_send, 900); (K_getraw, 900)])).
-  Proof. vm_compute. reflexivity. Qed.
+(* the node rejects the penalty (-26): dropped *)
+Example C01_ex_breach_rejected :
+  C01_ex_after C01_ex_t0 (C01_ex_pre C01_ex_good ++ [(OConnect 2001 [500], [(900, (G_not_found, A_code (-26)))])])
+  = (OBlockRes, ([], [], [(K_send, 900); (K_getraw, 900)])).
+Proof. vm_compute. reflexivity. Qed.
 
-  (* the node answers already-in-chain (-27): neither accepted nor rejected; the row stays, no tracker *)
-  Example breach_already_in_chain :
-    after t0 (pre good ++ [(OConnect 2001 [500], [(900, (G_not_found, A_code (-27)))])])
-    = (OBlockRes, ([(500, 1)], [], [(K_send, 900); (K_getraw, 900)])).
-  Proof. vm_compute. reflexivity. Qed.
-  Example breach_already_in_chain_reported :
-    fst (after t0 (pre good ++ [(OConnect 2001 [500], [(900, (G_not_found, A_code (-27)))]); (OGet (Some 1) 500, [])]))
-    = OGetRes (GetApp 500 good 20).
-  Proof. vm_compute. reflexivity. Qed.
+(* the node answers already-in-chain (-27): neither accepted nor rejected; the row stays, no tracker *)
+Example C01_ex_breach_already_in_chain :
+  C01_ex_after C01_ex_t0 (C01_ex_pre C01_ex_good ++ [(OConnect 2001 [500], [(900, (G_not_found, A_code (-27)))])])
+  = (OBlockRes, ([(500, 1)], [], [(K_send, 900); (K_getraw, 900)])).
+Proof. vm_compute. reflexivity. Qed.
+Example C01_ex_breach_already_in_chain_reported :
+  fst (C01_ex_after C01_ex_t0 (C01_ex_pre C01_ex_good ++ [(OConnect 2001 [500], [(900, (G_not_found, A_code (-27)))]); (OGet (Some 1) 500, [])]))
+  = OGetRes (GetApp 500 C01_ex_good 20).
+Proof. vm_compute. reflexivity. Qed.
 
-  (* late path: the dispute is already in the cache; the node has the penalty in its mempool *)
-  Example late_breach_answered :
-    after t0 [(ORegister 1, []); (OConnect 2001 [500], []); (OAdd (Some 1) 500 good 20 77, [(900, (G_in_mempool, A_ok))])]
-    = (OAddRes (AddOk 201 77 9 1200), ([(500, 1)], [((500, 1), 500, 900)], [(K_getraw, 900)])).
-  Proof. vm_compute. reflexivity. Qed.
+(* late path: the dispute is already in the cache; the node has the penalty in its mempool *)
+Example C01_ex_late_breach_answered :
+  C01_ex_after C01_ex_t0 [(ORegister 1, []); (OConnect 2001 [500], []); (OAdd (Some 1) 500 C01_ex_good 20 77, [(900, (G_in_mempool, A_ok))])]
+  = (OAddRes (AddOk 201 77 9 1200), ([(500, 1)], [((500, 1), 500, 900)], [(K_getraw, 900)])).
+Proof. vm_compute. reflexivity. Qed.
 
-  (* verdict by txid: two users, one penalty: one sendrawtransaction, one verdict for both *)
-  Definition two_users : list (op * script) :=
-    [(ORegister 1, []); (ORegister 2, []); (OAdd (Some 1) 500 good 20 77, []); (OAdd (Some 2) 500 good 20 78, [])].
-  Example shared_verdict_accepted :
-    after t0 (two_users ++ [(OConnect 2001 [500], [])])
-    = (OBlockRes, ([(500, 1); (500, 2)], [((500, 1), 500, 900); ((500, 2), 500, 900)],
-                   [(K_getraw, 900); (K_send, 900); (K_getraw, 900)])).
-  Proof. vm_compute. reflexivity. Qed.
-  Example shared_verdict_rejected :
-    after t0 (two_users ++ [(OConnect 2001 [500], [(900, (G_not_found, A_code (-26)))])])
-    = (OBlockRes, ([], [], [(K_getraw, 900); (K_send, 900); (K_getraw, 900)])).
-  Proof. vm_compute. reflexivity. Qed.
+(* verdict by txid: two users, one penalty: one sendrawtransaction, one verdict for both *)
+Definition C01_ex_two_users : list (op * script) :=
+  [(ORegister 1, []); (ORegister 2, []); (OAdd (Some 1) 500 C01_ex_good 20 77, []); (OAdd (Some 2) 500 C01_ex_good 20 78, [])].
+Example C01_ex_shared_verdict_accepted :
+  C01_ex_after C01_ex_t0 (C01_ex_two_users ++ [(OConnect 2001 [500], [])])
+  = (OBlockRes, ([(500, 1); (500, 2)], [((500, 1), 500, 900); ((500, 2), 500, 900)],
+                 [(K_getraw, 900); (K_send, 900); (K_getraw, 900)])).
+Proof. vm_compute. reflexivity. Qed.
+Example C01_ex_shared_verdict_rejected :
+  C01_ex_after C01_ex_t0 (C01_ex_two_users ++ [(OConnect 2001 [500], [(900, (G_not_found, A_code (-26)))])])
+  = (OBlockRes, ([], [], [(K_getraw, 900); (K_send, 900); (K_getraw, 900)])).
+Proof. vm_compute. reflexivity. Qed.
 
-  (* the corner of the whole-step theorem: the penalty is found in the responder's index exactly
-     IRREVOCABLY_RESOLVED blocks deep; the tracker the watcher creates completes in the same step
-     (appointment and tracker gone, slot refunded: 10 slots again) *)
-  Definition blocks100 : list (N * list N) :=
-    map (fun i => (1000 + N.of_nat i, if Nat.eqb i 99 then [900] else [])) (seq 0 100).
-  Definition t100 := match init c0 200 blocks100 with Some t => t | None => dummy end.
-  Example corner_status : breach_status [] (fst (run true t100 (pre good))) 900 = ConfirmedIn 101.
-  Proof. vm_compute. reflexivity. Qed.
-  Example corner_completes_immediately :
-    (let '(t', outs) := run true t100 (pre good ++ [(OConnect 2001 [500], [])]) in (outs, summary t', db_users t'))
-    = ([ORegisterRes (RegOk 10 200 1200); OAddRes (AddOk 200 77 9 1200); OBlockRes], ([], [], []),
-       [(1, mk_uinfo 10 200 1200)]).
-  Proof. vm_compute. reflexivity. Qed.
+(* the corner of the whole-step theorem: the penalty is found in the responder's index exactly
+   IRREVOCABLY_RESOLVED blocks deep; the tracker the watcher creates completes in the same step
+   (appointment and tracker gone, slot refunded: 10 slots again) *)
+Definition C01_ex_blocks100 : list (N * list N) :=
+  map (fun i => (1000 + N.of_nat i, if Nat.eqb i 99 then [900] else [])) (seq 0 100).
+Definition C01_ex_t100 := match init C01_ex_c0 200 C01_ex_blocks100 with Some t => t | None => C01_ex_dummy end.
+Example C01_ex_corner_status : breach_status [] (fst (run true C01_ex_t100 (C01_ex_pre C01_ex_good))) 900 = ConfirmedIn 101.
+Proof. vm_compute. reflexivity. Qed.
+Example C01_ex_corner_completes_immediately :
+  (let '(t', outs) := run true C01_ex_t100 (C01_ex_pre C01_ex_good ++ [(OConnect 2001 [500], [])]) in (outs, C01_ex_summary t', db_users t'))
+  = ([ORegisterRes (RegOk 10 200 1200); OAddRes (AddOk 200 77 9 1200); OBlockRes], ([], [], []),
+     [(1, mk_uinfo 10 200 1200)]).
+Proof. vm_compute. reflexivity. Qed.
 
-  (* the hypotheses of C01_block_breaches are satisfiable together, with an accepted verdict *)
-  Example block_breaches_nonvacuous :
-    exists t t' a p,
-      Inv t /\ w_block_connected [] t (cache_block 2001 [500]) 201 = Ok tt t' /\
-      In a (db_apps t) /\ memN (a_loc a) [500] = true /\ find_trk (db_trks t) (app_uuid a) = None /\
-      decrypt (a_blob a) (a_loc a) = Some p /\ status_accepted (breach_status [] t p) = true.
-  Proof.
-    exists (fst (run true t0 (pre good))).
-    eexists. exists (mk_app 500 1 good 20 77 200), 900.
-    split.
-    { apply (inv_reachable true c0 200 blocks0 t0 (pre good)); [reflexivity|].
-      vm_compute. repeat constructor. }
-    split; [vm_compute; reflexivity|].
-    split; [vm_compute; left; reflexivity|]. repeat split; vm_compute; reflexivity.
-  Qed.
-End Examples.
+(* the hypotheses of C01_block_breaches are satisfiable together, with an accepted verdict *)
+Example C01_ex_block_breaches_nonvacuous :
+  exists t t' a p,
+    Inv t /\ w_block_connected [] t (cache_block 2001 [500]) 201 = Ok tt t' /\
+    In a (db_apps t) /\ memN (a_loc a) [500] = true /\ find_trk (db_trks t) (app_uuid a) = None /\
+    decrypt (a_blob a) (a_loc a) = Some p /\ status_accepted (breach_status [] t p) = true.
+Proof.
+  exists (fst (run true C01_ex_t0 (C01_ex_pre C01_ex_good))).
+  eexists. exists (mk_app 500 1 C01_ex_good 20 77 200), 900.
+  split.
+  { apply (inv_reachable true C01_ex_c0 200 C01_ex_blocks0 C01_ex_t0 (C01_ex_pre C01_ex_good)); [reflexivity|].
+    vm_compute. repeat constructor. }
+  split; [vm_compute; reflexivity|].
+  split; [vm_compute; left; reflexivity|]. repeat split; vm_compute; reflexivity.
+Qed.
